@@ -171,3 +171,60 @@ func (p *SchedPlan) DropPoint(i int) *SchedPlan {
 	q.Points = append(q.Points[:i], q.Points[i+1:]...)
 	return q
 }
+
+// Compact removes shared objects and data that no operation refers to and
+// renumbers the references. Data that creation-only plans never use are kept
+// to one entry so that object priming still has something to run on.
+func (p *SchedPlan) Compact() *SchedPlan {
+	q := p.Clone()
+	usedObj := make([]bool, len(q.Objects))
+	usedDat := make([]bool, len(q.Data))
+	for _, t := range q.Tasks {
+		for _, o := range t {
+			if !o.Local && o.Obj >= 0 && o.Obj < len(usedObj) && (o.Kind == "eval" || o.Kind == "exec" || o.Kind == "expr") {
+				usedObj[o.Obj] = true
+			}
+			if o.Datum >= 0 && o.Datum < len(usedDat) && (o.Kind == "eval" || o.Kind == "exec" || o.Kind == "mutate") {
+				usedDat[o.Datum] = true
+			}
+		}
+	}
+	objMap := make([]int, len(q.Objects))
+	var objs []ObjSpec
+	var primed []bool
+	for i, u := range usedObj {
+		objMap[i] = -1
+		if u {
+			objMap[i] = len(objs)
+			objs = append(objs, q.Objects[i])
+			if i < len(q.Primed) {
+				primed = append(primed, q.Primed[i])
+			}
+		}
+	}
+	datMap := make([]int, len(q.Data))
+	var data []DatumSpec
+	for i, u := range usedDat {
+		datMap[i] = -1
+		if u {
+			datMap[i] = len(data)
+			data = append(data, q.Data[i])
+		}
+	}
+	if len(data) == 0 && len(q.Data) > 0 {
+		data = append(data, q.Data[0])
+	}
+	for ti := range q.Tasks {
+		for oi := range q.Tasks[ti] {
+			o := &q.Tasks[ti][oi]
+			if !o.Local && o.Obj >= 0 && o.Obj < len(objMap) {
+				o.Obj = objMap[o.Obj]
+			}
+			if o.Datum >= 0 && o.Datum < len(datMap) {
+				o.Datum = datMap[o.Datum]
+			}
+		}
+	}
+	q.Objects, q.Primed, q.Data = objs, primed, data
+	return q
+}
